@@ -167,14 +167,12 @@ func (fv *FnVC) finishReturn(in *inst, r retInfo, suffix string) {
 	for _, l := range in.loops {
 		ls := in.loopSpec(l)
 		snap := in.hdrState[l]
-		if ls.Unroll > 0 || len(ls.Steps) == 0 || snap == nil || !l.body[r.node.blk] {
+		if ls.Unroll > 0 || len(ls.Steps) == 0 || snap == nil || !exitsFromInside(l, r.node.blk) {
 			continue
 		}
 		ce3 := in.baseEnv(st)
 		for k, v := range snap.vars {
-			if _, dup := ce3.vars[k]; !dup {
-				ce3.vars[k] = v
-			}
+			ce3.vars[k] = v // the loop's lets take precedence over source names
 		}
 		for i, nm := range resultNames(sig) {
 			ce3.vars[nm] = vs[i]
@@ -570,4 +568,22 @@ func relevanceSlice(globals, body []string, goal string, rounds int) (keepG, kee
 		}
 	}
 	return keep[:len(globals)], keep[len(globals):]
+}
+
+// exitsFromInside: the block (a return) leaves loop l from inside an
+// iteration: it is dominated by the loop header but is not reached through
+// the header's own exit branch (the loop condition turning false).
+func exitsFromInside(l *loopInfo, b *ssa.BasicBlock) bool {
+	if l.body[b] {
+		return true
+	}
+	if !l.header.Dominates(b) {
+		return false
+	}
+	for _, s := range l.header.Succs {
+		if !l.body[s] && (s == b || s.Dominates(b)) {
+			return false
+		}
+	}
+	return true
 }
